@@ -224,12 +224,12 @@ fn compare(target: &str, seed: u64, a: &[u64], b: &[u64]) -> Result<(), Fail> {
     let n = a.len().min(b.len());
     for i in 0..n {
         if a[i] != b[i] {
-            return Err(Fail { target: target.into(), prop: "C08", label: format!("C08.{target}.output-independent-of-chunking"),
+            return Err(Fail { target: target.into(), prop: "C08+C10", label: format!("C08+C10.{target}.output-independent-of-chunking"),
                 what: format!("output sample {i} differs between a roomy run ({:#x}) and a drip-fed run ({:#x}); {} vs {} samples in total", a[i], b[i], a.len(), b.len()), seed });
         }
     }
     if a.len() != b.len() {
-        return Err(Fail { target: target.into(), prop: "C08", label: format!("C08.{target}.output-independent-of-chunking"),
+        return Err(Fail { target: target.into(), prop: "C08+C10", label: format!("C08+C10.{target}.output-independent-of-chunking"),
             what: format!("{} output samples in a roomy run, {} in a drip-fed run of the same input", a.len(), b.len()), seed });
     }
     Ok(())
@@ -283,6 +283,12 @@ fn one(target: &str, seed: u64) -> Result<u64, Fail> {
                 let (mut b, o) = FftFilter::new(r, &taps);
                 run(target, seed, &mut b, &w, &o, &csig, adversarial)?
             }
+            "fftstream" => {
+                let (w, r) = new_stream::<Complex>();
+                let csig: Vec<Complex> = sig.iter().take(600_000).enumerate().map(|(i, x)| Complex::new(*x, sig[(i * 3 + 2) % sig.len()])).collect();
+                let (mut b, o) = FftStream::new(r, [8usize, 64, 1000][(seed % 3) as usize]);
+                run(target, seed, &mut b, &w, &o, &csig, adversarial)?
+            }
             "firf" => {
                 let (w, r) = new_stream::<Float>();
                 let taps: Vec<Float> = (0..9).map(|i| 0.1 + i as f32 * 0.05).collect();
@@ -327,7 +333,7 @@ fn bx_dsp() {
             }
         }
     }));
-    let targets = std::env::var("BX_TARGETS").unwrap_or_else(|_| "zc,zcclk,symsync,ssclk,fftfilt,fftfiltc,firf,hilbert,iir1,slicer,qdemod".into());
+    let targets = std::env::var("BX_TARGETS").unwrap_or_else(|_| "zc,zcclk,symsync,ssclk,fftfilt,fftfiltc,fftstream,firf,hilbert,iir1,slicer,qdemod".into());
     // one differential run is millions of samples: BX_N (sized for the small-state harnesses) is scaled down
     let n: u64 = std::env::var("BX_N").ok().and_then(|s| s.parse::<u64>().ok()).map(|n| (n / 50).max(2)).unwrap_or(2);
     let base: u64 = std::env::var("VERIF_SEED").ok().and_then(|s| s.parse().ok()).unwrap_or(1);
